@@ -47,9 +47,12 @@ impl Parser<'_, '_> {
             };
             self.take_token_raw().await?;
 
-            while self.newline_and_here_doc_contents().await? {}
-
             let maybe_pipeline = loop {
+                // Skip newlines inside the loop: an alias substituted for the
+                // first word may produce nothing but blanks, in which case
+                // the line break follows the operator after the substitution.
+                while self.newline_and_here_doc_contents().await? {}
+
                 if let Rec::Parsed(maybe_pipeline) = self.pipeline().await? {
                     break maybe_pipeline;
                 }
